@@ -25,7 +25,7 @@ from .. import gen_modgraph as G
 from ..rng import Rng
 
 PID = "C17"
-KNOWN_PATH = os.path.join(runner.VERIF, "known", "c17_findings.json")
+KNOWN_PATH = os.environ.get("C17_KNOWN") or os.path.join(runner.VERIF, "known", "c17_findings.json")  # C17_KNOWN: a copy with findings marked fixed, to validate patches on a scratch tree
 NODE_RUNNER = os.path.join(runner.VERIF, "oracle", "node_modules_runner.mjs")
 NODE_SHARDS = 6
 
